@@ -83,6 +83,12 @@ impl PathNodeContext {
     pub fn next_key(&mut self) -> usize {
         self.key_mgr.next_key()
     }
+
+    pub fn on_keys_seen<'a>(&mut self, keys: impl Iterator<Item = &'a usize>) {
+        for key in keys {
+            self.key_mgr.on_key_seen(*key);
+        }
+    }
 }
 
 #[cfg(test)]
